@@ -151,7 +151,11 @@ def tensor_from_nested(v, lib='torch'):
                 return x
             i = O.simp(ids[0])
             if isinstance(i, int):
+                if i < 0 or i >= len(x):
+                    return 0        # total outside the list (a concrete `ite` evaluates both branches)
                 return pick(x[i], ids[1:])
+            if len(x) == 0:
+                return 0
             out = pick(x[-1], ids[1:])
             for j in range(len(x) - 2, -1, -1):
                 out = ite(O.eq(i, j), pick(x[j], ids[1:]), out)
